@@ -199,7 +199,11 @@ class Ctx:
         del slot["cases"][3:]
 
     def crash(self, exc, prefix="crash", case=None):
-        self.fail("%s:%s@%s" % (prefix, type(exc).__name__, repo_frame(exc)),
+        detail = ""
+        m = re.search(r"Unexpected event type at ([\w.]+): Expected .*? got (\w+)", str(exc))
+        if m:  # mitmproxy.proxy.utils.expect: name the state and the event so distinct causes get distinct buckets
+            detail = "[%s<-%s]" % (m.group(1), m.group(2))
+        self.fail("%s:%s@%s%s" % (prefix, type(exc).__name__, repo_frame(exc), detail),
                   "".join(traceback.format_exception(type(exc), exc, exc.__traceback__))[-1800:], case)
 
     def result(self):
